@@ -141,7 +141,7 @@ func (t MultipartMixed) Do(w http.ResponseWriter, r *http.Request, exec graphql.
 	responses, ctx := exec.DispatchOperation(ctx, rc)
 	initialResponse := true
 	for {
-		response := responses(ctx)
+		response := nextResponse(ctx, exec, rc, responses)
 		if response == nil {
 			break
 		}
